@@ -91,6 +91,7 @@ type tcase struct {
 	Preloaded int   `json:"preloaded"`
 	LateSet   bool  `json:"handler_set_at_runtime"`
 	Reentrant bool  `json:"error_handler_publishes"` // the error handler publishes a follow-up event on the same bus
+	HookAfter bool  `json:"hook_after_store"`        // New(WithStore(s), ..., WithBeforePublishContext(h)): a context hook given after the store
 }
 
 func (t tcase) String() string {
@@ -98,7 +99,7 @@ func (t tcase) String() string {
 	for _, x := range t.Pattern {
 		p = append(p, names[x])
 	}
-	return fmt.Sprintf("pattern=[%s] errorHandler=%v preloaded=%d lateSet=%v reentrant=%v", strings.Join(p, ","), t.Handler, t.Preloaded, t.LateSet, t.Reentrant)
+	return fmt.Sprintf("pattern=[%s] errorHandler=%v preloaded=%d lateSet=%v reentrant=%v hookAfterStore=%v", strings.Join(p, ","), t.Handler, t.Preloaded, t.LateSet, t.Reentrant, t.HookAfter)
 }
 
 type errCall struct {
@@ -157,6 +158,9 @@ func runCaseBody(t tcase) (out []string) {
 	}
 	if t.Handler && !t.LateSet {
 		opts = append(opts, eventbus.WithPersistenceErrorHandler(eh))
+	}
+	if t.HookAfter {
+		opts = append(opts, eventbus.WithBeforePublishContext(func(context.Context, reflect.Type, any) {}))
 	}
 	bus = eventbus.New(opts...)
 	if t.Handler && t.LateSet {
@@ -317,6 +321,7 @@ func cases(thorough bool) []tcase {
 						l = append(l, tcase{Pattern: p, Handler: hd, Preloaded: pre, LateSet: true})
 						if pre == 0 {
 							l = append(l, tcase{Pattern: p, Handler: hd, Reentrant: true})
+							l = append(l, tcase{Pattern: p, Handler: hd, HookAfter: true})
 						}
 					}
 				}
